@@ -15,13 +15,13 @@ ID = 'C12'
 POISON_WORD = 0x7ff8000000000000
 RULE = ('strongly connected count matrices: all n=2 over {0..3}, all n=3 over {0,1,2} (Q: compiled on all, python on every '
         '3rd; T: both on all, + n=3 over {0,1,5} and {0,1,50}, n=4 binary) + sampled n=3 matrices over {0,1,1e3,1e6} (six orders of magnitude) x scalings {1,0.5,1e-3,1e3} (scalings on every '
-        '4th matrix) x {compiled _mle_prinz_dense, python _prinz_mle_py, public mle(dense), mle(csr)} x max_iter cap {1,2}; '
+        '4th matrix) x {compiled _mle_prinz_dense, python _prinz_mle_py, public mle(dense), mle(csr)} x max_iter cap {1,2}; counts stored as int64/int32/int16/int8/uint8..uint64/float32 (every 9th matrix in Q, every 3rd in T, plus near-limit matrices whose pair sums exceed the dtype) must give the float64 model; '
         'state=(matrix,scale,implementation); non-trivial = asymmetric matrix with a zero entry')
 ASSUMPTIONS = ['Prinz self-consistency residual tolerance 1e-4*sum(C) (estimator stops on 1e-10 change of its pseudo-likelihood)',
                'likelihood optimality checked against the transpose estimate and the finite family X +- delta*E_ij, '
                'delta in {1e-3,1e-2}*x_ij over every pair in the support (coordinate-wise optimality), slack 1e-8*sum(C)',
                'python vs compiled agreement tolerance 1e-4: both stop on a 1e-10 change of a (non-monotone) pseudo-likelihood evaluated with log vs log10, so they may stop a few sweeps apart; measured: compiled stops after 5 sweeps, 1.07e-5 from the fixed point on C=[[1,2,1],[2,0,1],[2,2,1]]']
-GUARDS = {'wide_range': 50, 'asymmetric': 500, 'with_zero_entry': 500, 'self_counts': 500, 'maxiter_cap_hit': 100, 'scaled': 100,
+GUARDS = {'storage_dtype': 100, 'pair_sums_beyond_dtype': 4, 'wide_range': 50, 'asymmetric': 500, 'with_zero_entry': 500, 'self_counts': 500, 'maxiter_cap_hit': 100, 'scaled': 100,
           'python_impl': 500, 'compiled_impl': 500, 'csr': 100}
 NSH = {'quick': 64, 'thorough': 256}
 
@@ -198,9 +198,52 @@ def check_case(case, ctx, cache=None):
             ctx.violation('mle_py:raises:%s' % type(e).__name__, case, 'python estimator raised %r on %r' % (e, case))
 
 
+INT_DTYPES = ('int64', 'int32', 'int16', 'int8', 'uint8', 'uint16', 'uint32', 'uint64', 'float32')
+NEAR_LIMIT = ((np.array([[100, 90], [80, 100]]), ('int8', 'uint8')), (np.array([[120, 7, 0], [90, 0, 120], [0, 100, 3]]), ('int8', 'uint8')),
+              (np.array([[200, 90, 1], [80, 200, 3], [1, 2, 250]]), ('uint8', 'int16')),
+              (np.array([[30000, 20000, 0], [1, 30000, 9], [32000, 0, 5]]), ('int16', 'uint16')),
+              (np.array([[2 ** 31 - 5, 7], [2 ** 30, 2 ** 31 - 9]]), ('int32', 'uint32', 'int64')))
+
+
+def check_storage_dtype(case, ctx):
+    """the same counts stored in another (integer / narrow / unsigned) element type give the same model"""
+    from enspara.msm import builders
+    C = np.array(case['C'])
+    dt, impl = case['dtype'], case['impl']
+    Cd = C.astype(dt)
+    if not np.array_equal(Cd.astype(float), C.astype(float)):
+        return
+    ctx.ev()
+    ctx.guard('storage_dtype')
+    if float(C.max()) * 2 > (np.iinfo(dt).max if np.dtype(dt).kind in 'iu' else 1e30):
+        ctx.guard('pair_sums_beyond_dtype')
+    ctx.state(('dtype', C.tobytes(), dt, impl), nontrivial=True)
+    try:
+        with warnings.catch_warnings():
+            warnings.simplefilter('ignore')
+            if impl == 'mle_dense':
+                _, Tr, pr = builders.mle(C.astype(float))
+                _, Td, pd_ = builders.mle(Cd)
+            else:
+                _, Tr, pr = builders.mle(sp.csr_matrix(C.astype(float)))
+                _, Td, pd_ = builders.mle(sp.csr_matrix(Cd))
+                Tr, Td = Tr.toarray(), Td.toarray()
+    except Exception as e:
+        ctx.violation('mle:storage_dtype:raises:%s' % type(e).__name__, case, 'counts stored as %s: %r (%r)' % (dt, e, case))
+        return
+    Tr, Td = np.asarray(Tr, float), np.asarray(Td, float)
+    tol = 1e-9 if dt != 'float32' else 1e-6
+    if Td.shape != Tr.shape or not np.isfinite(Td).all() or np.abs(Td - Tr).max() > tol or np.abs(np.asarray(pd_) - np.asarray(pr)).max() > tol:
+        ctx.violation('mle:storage_dtype:value', case, 'counts stored as %s give\n%s\nbut as float64\n%s' % (dt, Td, Tr))
+
+
 def run_shard(sh, ctx):
     tier, i = sh
     ms = matrices(tier)
+    if i < len(NEAR_LIMIT):
+        for dt in NEAR_LIMIT[i][1]:
+            for impl in ('mle_dense', 'mle_csr'):
+                check_storage_dtype({'kind': 'dtype', 'C': NEAR_LIMIT[i][0].tolist(), 'dtype': dt, 'impl': impl}, ctx)
     for j in range(i, len(ms), NSH[tier]):
         C = ms[j]
         jj = j // NSH[tier]
@@ -212,6 +255,9 @@ def run_shard(sh, ctx):
             if scale == 1 and jj % 6 == 0:
                 for impl in ('mle_dense', 'mle_csr'):
                     check_case({'C': C.tolist(), 'scale': scale, 'impl': impl}, ctx)
+            if scale == 1 and jj % (9 if tier == 'quick' else 3) == 0 and np.array_equal(C, np.round(C)) and C.max() < 2 ** 31:
+                for k, dt in enumerate(INT_DTYPES):
+                    check_storage_dtype({'kind': 'dtype', 'C': C.astype(np.int64).tolist(), 'dtype': dt, 'impl': ('mle_dense', 'mle_csr')[(jj + k) % 2]}, ctx)
             if scale == 1 and jj % 5 == 0:
                 for impl in ('c', 'py'):
                     for mi in (1, 2):
@@ -221,4 +267,6 @@ def run_shard(sh, ctx):
 
 
 def replay(case, ctx):
+    if case.get('kind') == 'dtype':
+        return check_storage_dtype(case, ctx)
     check_case(case, ctx)
